@@ -569,6 +569,12 @@ class Interp:
                 result: Value = fr.locals["$yields"] if gen_mode else NONE
             except ReturnEx as r:
                 result = fr.locals["$yields"] if gen_mode else r.value
+            except Unsupported:
+                if not gen_mode:
+                    raise
+                # a generator that cannot be evaluated eagerly (e.g. an open-ended loop): an opaque iterator
+                self.run.event("call_generator", func=qn, args=args, kwargs=kwargs, node=node)
+                result = Unknown(self.run.new_tag(f"{qn}(...)"), {"generator": qn, "expr": f"{qn}(...)"})
             if memo_key is not None:
                 self.run.const_cache[memo_key] = result
             return result
